@@ -124,14 +124,23 @@ def layout(spec):
         for cfgno, v in calls:
             k[cfgno] = k.get(cfgno, 0) + 1
             per[cfgno].append((n + b' - ' + str(k[cfgno]).encode(), esc(v), True))
+    tails = {}
     for cfgno, sid, body in spec['stale']:
         if cfgno in per:
-            per[cfgno].append((sid, esc(body), False))
+            live_ids = [i for i, _, l in per[cfgno] if l]
+            if body.startswith(b'old\n---') and live_ids and rr.random() < 0.5:
+                # the residue after the terminator-like line names a LIVE slot; the stale entry sits at
+                # the end of the file, so lookups of the live slot are not affected
+                body = body.replace(b'[TestGhost - 7]', b'[' + rr.choice(live_ids) + b']')
+                tails.setdefault(cfgno, []).append((sid, esc(body), False))
+            else:
+                per[cfgno].append((sid, esc(body), False))
     for cfgno in per:
         if rr.random() < 0.6:
             rr.shuffle(per[cfgno])
         else:
             per[cfgno].sort(key=lambda e: natural_key(e[0]))
+        per[cfgno] += tails.get(cfgno, [])
     return per
 
 
@@ -256,6 +265,12 @@ def o_stale_reported(w):
                     return 'stale entry [%s] survives in clean mode' % tid.decode()
                 if not dele and tid not in ids_after:
                     return 'stale entry [%s] removed although the mode does not allow deletion' % tid.decode()
+    import re as _re
+    stale_ids = set(t for es in w.meta['per'].values() for t, _, l in es if not l)
+    listed = [m.group(1) for m in _re.finditer(rb'\xe2\x80\xa2 (Test[^\n]* - \d+)\n', out)]
+    extra = [t for t in listed if t not in stale_ids]
+    if extra:
+        return 'the summary lists %r as obsolete, which is not a stale entry of any file' % extra[:3]
     for p in before:
         base = p.rsplit(b'/', 1)[1]
         d = p.rsplit(b'/', 1)[0]
